@@ -230,6 +230,32 @@ class Run:
                 self.samples.append({"op": c.line, "impl": io, "tag": c.tag})
         return impl_out, model_raw
 
+    # -- plain observation against an expectation -------------------------------------------------
+    def observe(self, cases: list[Case], observe_fn, expect_fn, what: str, nontrivial=None, known_region=None):
+        """observe_fn(case) -> str ; expect_fn(case, observed) -> None | str (how the property is violated)"""
+        seen = set()
+        for c in cases:
+            try:
+                got = observe_fn(c)
+            except Exception as e:  # noqa: BLE001
+                got = "harness-error " + type(e).__name__ + ": " + str(e)[:120]
+            self.n_cases += 1
+            self.dist[c.tag + ":" + got.split(" ")[0]] += 1
+            verdict = expect_fn(c, got)
+            if c.line not in seen:
+                seen.add(c.line)
+                if nontrivial is None or nontrivial(c, got):
+                    self.n_distinct_nontrivial += 1
+            if len(self.samples) < 12 and self.n_cases % max(1, len(cases) // 8) == 0:
+                self.samples.append({"op": c.line, "observed": got, "tag": c.tag})
+            if verdict is None:
+                continue
+            kid = known_region(c, got) if known_region else None
+            if kid is not None:
+                self.known_lines.setdefault(kid, f"{verdict} :: {c.line!r} -> {got}")
+                continue
+            self.findings.append(Finding("failing-input", f"{what}: {verdict}", c, got, "", ""))
+
     # -- obligations ------------------------------------------------------------------------------
     def check_obligations(self, modules, theorems):
         p = self.prep
